@@ -1,2 +1,3 @@
+pub mod http;
 pub mod ja4;
 pub mod p0f;
